@@ -65,6 +65,11 @@ def setup(ctx, mon):
 
 # a witness of the listed finding selector-picked-steps-beyond-validity-radius (the quick tier does not always draw one)
 KNOWN_WITNESSES = [
+    # a negative scalar step with the multivariate classes (the estimate of a single quotient was negative; repaired, 941b3cf)
+    dict(kind='multi', cls='Hessdiag', dim=1, method='central', order=4, g=[1], x=[-1.7978], stationary=[False], m=1, beta=1.384, seed=1835356874,
+         step=dict(kind='scalar', value=-0.000542275392277162)),
+    dict(kind='multi', cls='Gradient', dim=2, method='forward', order=2, g=[2, 1], x=[0.31, 0.72], stationary=[False, False], m=1, beta=0.9, seed=77,
+         step=dict(kind='scalar', value=-0.003)),
     dict(kind='multi', cls='Gradient', dim=2, method='central', order=4, g=[6, 1], x=[0.0476, 0.4929], stationary=[False, False],
          m=2, beta=-1.891, seed=1786700754,
          step=dict(kind='min', opts=dict(base_step=0.005345692900430121, num_steps=13, step_ratio=5.1053359493103))),
